@@ -43,9 +43,22 @@ type stackRow struct {
 	// New builds the stack and returns the outer client plus the model/device behind the server (for model-level writes
 	// on servers without an Update RPC)
 	New func() (client any, model any)
+	// Variant names a non-default configuration of the same server (model options: initial values, presets ...);
+	// "" is the default constructor call. Variants are further rows of the same server: they share its
+	// signatures (a finding is a property of the server code, not of the configuration that showed it).
+	Variant string
 }
 
+// key identifies the server implementation (call site of findings, K3 table of driven servers).
 func (r stackRow) key() string { return r.Pkg + "." + r.Ctor }
+
+// rowKey identifies the row (server + configuration): children, sessions and replays are per row.
+func (r stackRow) rowKey() string {
+	if r.Variant == "" {
+		return r.key()
+	}
+	return r.key() + "+" + r.Variant
+}
 
 var stackTable = []stackRow{
 	{"accesspb", "NewModelServer", func() (any, any) {
@@ -53,67 +66,67 @@ var stackTable = []stackRow{
 		r := accesspb.NewApiRouter()
 		r.Add(devName, accesspb.WrapApi(accesspb.NewModelServer(m)))
 		return accesspb.WrapApi(r), m
-	}},
+	}, ""},
 	{"airqualitysensorpb", "NewModelServer", func() (any, any) {
 		m := airqualitysensorpb.NewModel()
 		r := airqualitysensorpb.NewApiRouter()
 		r.Add(devName, airqualitysensorpb.WrapApi(airqualitysensorpb.NewModelServer(m)))
 		return airqualitysensorpb.WrapApi(r), m
-	}},
+	}, ""},
 	{"airtemperaturepb", "NewModelServer", func() (any, any) {
 		m := airtemperaturepb.NewModel()
 		r := airtemperaturepb.NewApiRouter()
 		r.Add(devName, airtemperaturepb.WrapApi(airtemperaturepb.NewModelServer(m)))
 		return airtemperaturepb.WrapApi(r), m
-	}},
+	}, ""},
 	{"airtemperaturepb", "NewMemoryDevice", func() (any, any) {
 		m := airtemperaturepb.NewMemoryDevice()
 		r := airtemperaturepb.NewApiRouter()
 		r.Add(devName, airtemperaturepb.WrapApi(m))
 		return airtemperaturepb.WrapApi(r), m
-	}},
+	}, ""},
 	{"bookingpb", "NewModelServer", func() (any, any) {
 		m := bookingpb.NewModel()
 		r := bookingpb.NewApiRouter()
 		r.Add(devName, bookingpb.WrapApi(bookingpb.NewModelServer(m)))
 		return bookingpb.WrapApi(r), m
-	}},
+	}, ""},
 	{"countpb", "NewMemoryDevice", func() (any, any) {
 		m := countpb.NewMemoryDevice()
 		r := countpb.NewApiRouter()
 		r.Add(devName, countpb.WrapApi(m))
 		return countpb.WrapApi(r), m
-	}},
+	}, ""},
 	{"electricpb", "NewModelServer", func() (any, any) {
 		m := electricpb.NewModel()
 		r := electricpb.NewApiRouter()
 		r.Add(devName, electricpb.WrapApi(electricpb.NewModelServer(m)))
 		return electricpb.WrapApi(r), m
-	}},
+	}, ""},
 	{"emergencypb", "NewMemoryDevice", func() (any, any) {
 		m := emergencypb.NewMemoryDevice()
 		r := emergencypb.NewApiRouter()
 		r.Add(devName, emergencypb.WrapApi(m))
 		return emergencypb.WrapApi(r), m
-	}},
+	}, ""},
 	{"energystoragepb", "NewModelServer", func() (any, any) {
 		m := energystoragepb.NewModel()
 		r := energystoragepb.NewApiRouter()
 		r.Add(devName, energystoragepb.WrapApi(energystoragepb.NewModelServer(m)))
 		return energystoragepb.WrapApi(r), m
-	}},
+	}, ""},
 	{"enterleavesensorpb", "NewModelServer", func() (any, any) {
 		m := enterleavesensorpb.NewModel()
 		r := enterleavesensorpb.NewApiRouter()
 		r.Add(devName, enterleavesensorpb.WrapApi(enterleavesensorpb.NewModelServer(m)))
 		return enterleavesensorpb.WrapApi(r), m
-	}},
+	}, ""},
 	{"fanspeedpb", "NewModelServer", func() (any, any) {
 		m := fanspeedpb.NewModel()
 		r := fanspeedpb.NewApiRouter()
 		r.Add(devName, fanspeedpb.WrapApi(fanspeedpb.NewModelServer(m)))
 		return fanspeedpb.WrapApi(r), m
-	}},
+	}, ""},
 	{"hailpb", "NewModelServer", func() (any, any) {
 		// the timed garbage collection of arrived hails (a server-initiated Delete) is switched off: the keyed
 		// sessions decide themselves when an item is deleted
@@ -121,95 +134,140 @@ var stackTable = []stackRow{
 		r := hailpb.NewApiRouter()
 		r.Add(devName, hailpb.WrapApi(hailpb.NewModelServer(m)))
 		return hailpb.WrapApi(r), m
-	}},
+	}, ""},
 	{"lightpb", "NewModelServer", func() (any, any) {
 		m := lightpb.NewModel()
 		r := lightpb.NewApiRouter()
 		r.Add(devName, lightpb.WrapApi(lightpb.NewModelServer(m)))
 		return lightpb.WrapApi(r), m
-	}},
+	}, ""},
 	{"lightpb", "NewMemoryDevice", func() (any, any) {
 		m := lightpb.NewMemoryDevice()
 		r := lightpb.NewApiRouter()
 		r.Add(devName, lightpb.WrapApi(m))
 		return lightpb.WrapApi(r), m
-	}},
+	}, ""},
 	{"metadatapb", "NewModelServer", func() (any, any) {
 		m := metadatapb.NewModel()
 		r := metadatapb.NewApiRouter()
 		r.Add(devName, metadatapb.WrapApi(metadatapb.NewModelServer(m)))
 		return metadatapb.WrapApi(r), m
-	}},
+	}, ""},
 	{"metadatapb", "NewCollectionServer", func() (any, any) {
 		m := metadatapb.NewCollection()
 		r := metadatapb.NewApiRouter()
 		r.Add(devName, metadatapb.WrapApi(metadatapb.NewCollectionServer(m)))
 		return metadatapb.WrapApi(r), m
-	}},
+	}, ""},
 	{"meterpb", "NewModelServer", func() (any, any) {
 		m := meterpb.NewModel()
 		r := meterpb.NewApiRouter()
 		r.Add(devName, meterpb.WrapApi(meterpb.NewModelServer(m)))
 		return meterpb.WrapApi(r), m
-	}},
+	}, ""},
 	{"modepb", "NewModelServer", func() (any, any) {
 		m := modepb.NewModel()
 		r := modepb.NewApiRouter()
 		r.Add(devName, modepb.WrapApi(modepb.NewModelServer(m)))
 		return modepb.WrapApi(r), m
-	}},
+	}, ""},
 	{"occupancysensorpb", "NewModelServer", func() (any, any) {
 		m := occupancysensorpb.NewModel()
 		r := occupancysensorpb.NewApiRouter()
 		r.Add(devName, occupancysensorpb.WrapApi(occupancysensorpb.NewModelServer(m)))
 		return occupancysensorpb.WrapApi(r), m
-	}},
+	}, ""},
 	{"onoffpb", "NewModelServer", func() (any, any) {
 		m := onoffpb.NewModel()
 		r := onoffpb.NewApiRouter()
 		r.Add(devName, onoffpb.WrapApi(onoffpb.NewModelServer(m)))
 		return onoffpb.WrapApi(r), m
-	}},
+	}, ""},
 	{"openclosepb", "NewModelServer", func() (any, any) {
 		m := openclosepb.NewModel()
 		r := openclosepb.NewApiRouter()
 		r.Add(devName, openclosepb.WrapApi(openclosepb.NewModelServer(m)))
 		return openclosepb.WrapApi(r), m
-	}},
+	}, ""},
 	{"parentpb", "NewModelServer", func() (any, any) {
 		m := parentpb.NewModel()
 		r := parentpb.NewApiRouter()
 		r.Add(devName, parentpb.WrapApi(parentpb.NewModelServer(m)))
 		return parentpb.WrapApi(r), m
-	}},
+	}, ""},
 	{"presspb", "NewModelServer", func() (any, any) {
 		m := presspb.NewModel(traits.PressedState_UNPRESSED)
 		r := presspb.NewApiRouter()
 		r.Add(devName, presspb.WrapApi(presspb.NewModelServer(m)))
 		return presspb.WrapApi(r), m
-	}},
+	}, ""},
 	{"publicationpb", "NewModelServer", func() (any, any) {
 		m := publicationpb.NewModel()
 		r := publicationpb.NewApiRouter()
 		r.Add(devName, publicationpb.WrapApi(publicationpb.NewModelServer(m)))
 		return publicationpb.WrapApi(r), m
-	}},
+	}, ""},
 	{"speakerpb", "NewMemoryDevice", func() (any, any) {
 		m := speakerpb.NewMemoryDevice(&types.AudioLevel{Gain: 10})
 		r := speakerpb.NewApiRouter()
 		r.Add(devName, speakerpb.WrapApi(m))
 		return speakerpb.WrapApi(r), m
-	}},
+	}, ""},
 	{"vendingpb", "NewModelServer", func() (any, any) {
 		m := vendingpb.NewModel()
 		r := vendingpb.NewApiRouter()
 		r.Add(devName, vendingpb.WrapApi(vendingpb.NewModelServer(m)))
 		return vendingpb.WrapApi(r), m
-	}},
+	}, ""},
 	{"wastepb", "NewModelServer", func() (any, any) {
 		m := wastepb.NewModel()
 		r := wastepb.NewApiRouter()
 		r.Add(devName, wastepb.WrapApi(wastepb.NewModelServer(m)))
 		return wastepb.WrapApi(r), m
-	}},
+	}, ""},
+	// ---- configured variants: the same servers built with model options ------------------------------------
+	{"openclosepb", "NewModelServer", func() (any, any) {
+		// several directions from the start, presets named from the generator's string pool (so that random
+		// payloads select them), the initial positions equal to preset "a" (so that a preset is derived at once)
+		up := func(p float32) *traits.OpenClosePosition {
+			return &traits.OpenClosePosition{Direction: traits.OpenClosePosition_UP, OpenPercent: p}
+		}
+		down := func(p float32) *traits.OpenClosePosition {
+			return &traits.OpenClosePosition{Direction: traits.OpenClosePosition_DOWN, OpenPercent: p}
+		}
+		m := openclosepb.NewModel(
+			openclosepb.WithInitialPositions(up(100), down(25)),
+			openclosepb.WithPreset(&traits.OpenClosePositions_Preset{Name: "a", Title: "A"}, up(100), down(25)),
+			openclosepb.WithPreset(&traits.OpenClosePositions_Preset{Name: "b", Title: "B"}, up(0), down(75)),
+			openclosepb.WithPreset(&traits.OpenClosePositions_Preset{Name: "c", Title: "C"}, up(50)),
+		)
+		r := openclosepb.NewApiRouter()
+		r.Add(devName, openclosepb.WrapApi(openclosepb.NewModelServer(m)))
+		return openclosepb.WrapApi(r), m
+	}, "configured"},
+	{"lightpb", "NewModelServer", func() (any, any) {
+		m := lightpb.NewModel(
+			lightpb.WithInitialBrightness(&traits.Brightness{LevelPercent: 50}),
+			lightpb.WithPreset(25, &traits.LightPreset{Name: "a", Title: "A"}),
+			lightpb.WithPreset(75, &traits.LightPreset{Name: "b", Title: "B"}),
+		)
+		r := lightpb.NewApiRouter()
+		r.Add(devName, lightpb.WrapApi(lightpb.NewModelServer(m)))
+		return lightpb.WrapApi(r), m
+	}, "configured"},
+	{"fanspeedpb", "NewModelServer", func() (any, any) {
+		m := fanspeedpb.NewModel(
+			fanspeedpb.WithInitialFanSpeed(&traits.FanSpeed{Percentage: 50}),
+			fanspeedpb.WithPresets(fanspeedpb.Preset{Name: "a", Percentage: 25}, fanspeedpb.Preset{Name: "b", Percentage: 50}, fanspeedpb.Preset{Name: "c", Percentage: 100}),
+		)
+		r := fanspeedpb.NewApiRouter()
+		r.Add(devName, fanspeedpb.WrapApi(fanspeedpb.NewModelServer(m)))
+		return fanspeedpb.WrapApi(r), m
+	}, "configured"},
+	{"onoffpb", "NewModelServer", func() (any, any) {
+		m := onoffpb.NewModel(onoffpb.WithInitialOnOff(&traits.OnOff{State: traits.OnOff_ON}))
+		r := onoffpb.NewApiRouter()
+		r.Add(devName, onoffpb.WrapApi(onoffpb.NewModelServer(m)))
+		return onoffpb.WrapApi(r), m
+	}, "configured"},
 }
